@@ -10,6 +10,8 @@
 
 #include <boost/gil/extension/io/bmp/tags.hpp>
 
+#include <limits>
+
 namespace boost { namespace gil {
 
 #if BOOST_WORKAROUND(BOOST_MSVC, >= 1400)
@@ -102,6 +104,10 @@ public:
 
             if (_info._height < 0)
             {
+                io_error_if( _info._height == (std::numeric_limits< bmp_image_height::type >::min)()
+                           , "Invalid BMP image height."
+                           );
+
                 _info._height = -_info._height;
                 _info._top_down = true;
             }
@@ -168,6 +174,12 @@ public:
         {
             io_error( "Invalid BMP info header." );
         }
+
+        // the readers compute row sizes as width * bits per pixel (at most 32) in 32 bit arithmetic
+        io_error_if(  _info._width < 0
+                   || _info._width > (std::numeric_limits< bmp_image_width::type >::max)() / 32
+                   , "Invalid BMP image width."
+                   );
 
         _info._valid = true;
     }
